@@ -37,13 +37,22 @@ type Engine struct {
 	// NoLoops: do not generalise loops; a loop whose iteration the state does
 	// not decide ends the path as Cut (the engine's original fragment).
 	NoLoops bool
+	// Lean: site-oriented runs (E8) need neither event traces nor the final
+	// states of finished top-level paths; dropping them keeps memory flat.
+	Lean bool
 	// InlineLoops: inline in-repo callees even when they contain generalised
 	// loops (default: such callees stay opaque calls).
 	InlineLoops bool
 	// ErrClasses, if set, gives the sentinel classes (E4) of result idx of an
 	// in-repo call that is not inlined.
 	ErrClasses func(site *ssa.Call, idx int) []string
-	Err        error
+	// NonNilResult, if set, tells whether result idx of an in-repo call that
+	// is not inlined is non-nil on every return path of every possible callee.
+	NonNilResult func(site *ssa.Call, idx int) bool
+	// NonNilOnSuccess: result idx is non-nil on every return path of every
+	// callee on which the (last) error result may be nil.
+	NonNilOnSuccess func(site *ssa.Call, idx int) bool
+	Err          error
 }
 
 func NewEngine(w *World) *Engine {
@@ -130,6 +139,10 @@ func (e *Engine) Run(fn *ssa.Function, init *State, args []AV) []Path {
 		}
 		it.visited[it.b] = it.st.splits
 		it.count[it.b]++
+		if e.Lean {
+			it.st.events = nil
+			it.st.trail = nil
+		}
 
 		cur := []*State{it.st}
 		var term ssa.Instruction
@@ -285,6 +298,13 @@ func (e *Engine) branch(st *State, c AV) (tS, fS *State) {
 		f := st.clone()
 		st.atoms[c.Sym] = !c.Neg
 		f.atoms[c.Sym] = c.Neg
+		for _, s2 := range []*State{st, f} {
+			if s2.atoms[c.Sym] {
+				for _, b := range s2.impl[c.Sym] {
+					s2.atoms[b] = false
+				}
+			}
+		}
 		return st, f
 	}
 	// cannot happen: toBool always yields one of the above
@@ -580,7 +600,11 @@ func (e *Engine) exec(st *State, in ssa.Instruction) ([]*State, []Path) {
 		fname := x.X.Type().Underlying().(*types.Struct).Field(x.Field).Name()
 		switch base.Kind {
 		case KSym:
-			st.env[x] = e.typed(st, base.Sym+"."+fname, x.Type())
+			fv := e.typed(st, base.Sym+"."+fname, x.Type())
+			if strings.HasPrefix(base.Sym, "reflect.Type.Field(") && fname == "Type" {
+				fv.NonNil = true // reflect docs: StructField.Type is the field's type, never nil
+			}
+			st.env[x] = fv
 		case KZero:
 			st.env[x] = zeroAV(x.Type())
 		default:
@@ -633,6 +657,10 @@ func (e *Engine) exec(st *State, in ssa.Instruction) ([]*State, []Path) {
 	case *ssa.MakeSlice:
 		n := e.eval(st, x.Len)
 		a := AV{Kind: KSym, Sym: fmt.Sprintf("makeslice(%s)#%s.%s@%d", n.name(), x.Parent().Name(), x.Name(), st.epoch), NonNil: true, Src: x}
+		if n.Kind == KInt || n.Kind == KLin {
+			nn := n
+			a.Inner = &nn // len(make([]T, n)) == n
+		}
 		if n.Kind == KInt || n.Kind == KLin {
 			// remember the length relation
 			lt := "len(" + a.Sym + ")"
@@ -1106,6 +1134,9 @@ func (e *Engine) lenTerm(st *State, a AV) AV {
 	case KNil, KZero:
 		return avInt(0)
 	}
+	if a.Kind == KSym && a.Inner != nil && strings.HasPrefix(a.Sym, "makeslice(") && (a.Inner.Kind == KInt || a.Inner.Kind == KLin) {
+		return *a.Inner
+	}
 	name := a.name()
 	// len(slice(s,lo,)) = len(s) - lo
 	if strings.HasPrefix(name, "slice(") {
@@ -1462,6 +1493,39 @@ func (e *Engine) opaqueCall(st *State, x *ssa.Call, name string, callee *ssa.Fun
 			e.havocAll(st)
 		}
 		res = e.resultAV(st, x, fmt.Sprintf("%s#%s.%s@%d", shortName(name), x.Parent().Name(), x.Name(), st.epoch), nil)
+		if e.NonNilResult != nil {
+			rs := x.Call.Signature().Results()
+			for i := 0; i < rs.Len(); i++ {
+				if !isNilable(rs.At(i).Type()) || isErrorType(rs.At(i).Type()) {
+					continue
+				}
+				if e.NonNilResult(x, i) {
+					if rs.Len() == 1 {
+						res.NonNil = true
+					} else if res.Kind == KTuple && i < len(res.Elems) {
+						res.Elems[i].NonNil = true
+					}
+				}
+			}
+		}
+		if e.NonNilOnSuccess != nil && res.Kind == KTuple {
+			rs := x.Call.Signature().Results()
+			ei := rs.Len() - 1
+			if ei >= 1 && isErrorType(rs.At(ei).Type()) && ei < len(res.Elems) {
+				for i := 0; i < ei; i++ {
+					if !isNilable(rs.At(i).Type()) || res.Elems[i].NonNil {
+						continue
+					}
+					if e.NonNilOnSuccess(x, i) {
+						if st.impl == nil {
+							st.impl = map[string][]string{}
+						}
+						k := "nil(" + res.Elems[ei].name() + ")"
+						st.impl[k] = append(st.impl[k], "nil("+res.Elems[i].name()+")")
+					}
+				}
+			}
+		}
 		if e.ErrClasses != nil {
 			rs := x.Call.Signature().Results()
 			for i := 0; i < rs.Len(); i++ {
